@@ -34,6 +34,10 @@ def lib(kind):
 HIST = [False]
 
 
+class CopyBroken(Exception):
+    """copy.copy / copy.deepcopy of an operand did not yield the same quantity (kind, value, unit)"""
+
+
 def mk(kind, unit, v):
     if HIST[0] == 2 and kind not in NUM:
         # the caller took copies in every unit beforehand and went on converting THOSE in place: the operand itself
@@ -58,6 +62,8 @@ def mk(kind, unit, v):
             q.to(us[(us.index(unit) + 1) % len(us)], inplace=True)
         except ValueError:
             pass
+        if type(c) is not lib(kind) or c.unit != unit or c.value != v:
+            raise CopyBroken(f'copy of {kind}({v!r}, {unit!r}) is {type(c).__name__}({c.value!r}, {c.unit!r})')
         return c
     if HIST[0] and kind not in NUM:
         us = SI.units(kind)
@@ -98,7 +104,11 @@ def values_for(rng, kind, tier):
 
 def judge(ctx, ka, ua, va, op, kb, ub, vb, case, want_result=False):
     """perform a op b on real objects; returns ('ok', result_si, result_kind) / ('exc', name) / ('bad',)"""
-    a, b = mk(ka, ua, va), mk(kb, ub, vb)
+    try:
+        a, b = mk(ka, ua, va), mk(kb, ub, vb)
+    except CopyBroken as ex:
+        ctx.violation('C06:copy-of-an-operand-is-another-quantity', {'a': [ka, va, ua], 'b': [kb, vb, ub], 'what': str(ex)}, case)
+        return ('bad',)
     sa, sb = si_of(ka, ua, va), si_of(kb, ub, vb)
     if ka in NUM:
         sa = a
@@ -246,6 +256,12 @@ def run_combo(ctx, idx, A, op, Bq, tier, matrix=None):
         pairs.append((vas[1], vbs[0] * 1e-3))          # a (possibly negative) left operand dominating a small right one
     if op == '/' and SI.SIGN.get(kb) != '>0':
         pairs.append((vas[0], 0.0))
+    if op == '*' and (ka in NUM) != (kb in NUM):
+        # a tiny but positive (and a huge) plain factor: legal for every kind, sign-constrained ones included
+        pairs.append((5e-13, vbs[0]) if ka == 'float' else ((vas[0], 5e-13) if kb == 'float' else (vas[0], vbs[0])))
+        pairs.append((3e11, vbs[0]) if ka == 'float' else ((vas[0], 3e11) if kb == 'float' else (vas[0], vbs[0])))
+    if op == '/' and kb == 'float':
+        pairs.append((vas[0], 4e12))
     if op in '+-' and (ka in NUM) != (kb in NUM):
         # a plain zero next to a quantity: no kind is dictated for number +- quantity, whatever the number
         pairs.append((0.0, vbs[0]) if ka in NUM else (vas[0], 0.0))
